@@ -76,6 +76,7 @@ def setCfg (d : DSt) (kv : String) : Option DSt :=
     | "wal.syncOrder" => if v == "flush,sync" then some d else none
     | "vlog.writeOrder" => if v == "append,sync" then some d else none
     | "recovery.logPointerOp" => if v == "le" then some d else none
+    | "recovery.fidAllocator" => if v == "raise" then some d else none
     | "oracle.seedOp" =>
       if v == "ge" then some { d with cfg := { d.cfg with seedGe := true } }
       else if v == "gt" then some { d with cfg := { d.cfg with seedGe := false } }
@@ -243,6 +244,11 @@ def step (d0 : DSt) (toks : List String) : DSt × String :=
   match toks with
   | ["prop", p] => ({ d with prop := p }, "ok\t*")
   | ["wait", _] => (d, (if isDead then "-" else "ok") ++ "\t*")
+  | ["maint", _] =>
+    -- a compaction step moves / rewrites tables; what the database holds does not change
+    if !d.opened then (d, "malformed\t*") else
+    if isDead then (d, "-\t*") else
+    if d.closed then (d, "nodb\t*") else (d, "done\tdone")
   | "open" :: args =>
     if d.opened then (d, "malformed\t*") else
     let sync := (kv? args "sync").bind natOf? |>.getD 0
